@@ -98,6 +98,11 @@ pub fn build_item(it: &CItem) -> Result<Item, RegistrationError> {
         K::Const(R::A) => Item::Constant(Constant::new(name, "", Val(A(tag)), location!())?),
         K::Const(R::B) => Item::Constant(Constant::new(name, "", Val(B(tag)), location!())?),
         K::Use => Item::Use(Use::new(vec![it.path.clone()], location!())),
+        K::ImplUse(r) => {
+            let mut im = impl_for(r);
+            im.add(Use::new(vec![it.path.clone()], location!()));
+            Item::Impl(im)
+        }
     })
 }
 
@@ -205,8 +210,10 @@ pub fn register(lib: &Lib) -> (Obs, Option<Runtime<NoCtx>>) {
                 return (obs, None);
             }
             Ok(Err(e)) => {
+                // the runtime is handed back: an add that returned Err must
+                // have left it as it was
                 obs.adds.push(Err(message(&e)));
-                return (obs, None);
+                return (obs, Some(rt));
             }
             Ok(Ok(())) => obs.adds.push(Ok(())),
         }
